@@ -355,6 +355,92 @@ def sec_history(rec, patches=None):
                 rec.query(f"{tag}/call{k}({name})=mask-of-a-fresh-computation", h, goal, key="C08/history/mask-changed", replay=replay_history, twin=False, nonlinear=True)
 
 
+def replay_model_history(cex):
+    """installed library: alignment models with different tilt models (and none) created one after the other in one process, same box and orientation:
+    each model's missing-wedge mask is the mask of its own tilt model"""
+    from scipy.spatial.transform import Rotation
+    from acryo.alignment import ZNCCAlignment
+    from acryo.tilt import single_axis
+    from acryo.backend import Backend
+
+    t = np.zeros((6, 7, 8), dtype=np.float32)
+    t[2, 3, 4] = 1
+    quat = Rotation.from_rotvec([0.3, -0.5, 0.2]).as_quat().astype(np.float32)
+    xp = Backend()
+    bad = []
+    seq = [(-60.0, 60.0), (-30.0, 30.0), None, (-30.0, 30.0), (-60.0, 60.0)]
+    for k, r in enumerate(seq):
+        m = ZNCCAlignment(t, tilt=None if r is None else single_axis(r, "y"))
+        got = m._get_missing_wedge_mask(quat, xp)
+        if r is None:
+            same = bool((np.asarray(got) == 1).all())  # no wedge: every frequency is kept (a scalar 1 or an array of ones)
+            want = np.ones(np.shape(got))
+        else:
+            want = np.asarray(single_axis(r, "y").create_mask(Rotation.from_quat(quat), t.shape))
+            same = np.shape(got) == np.shape(want) and bool((np.asarray(got) == want).all())
+        if not same:
+            bad.append({"model": k, "tilt": r, "wrong_bins": int((np.asarray(got) != want).sum()) if np.shape(got) == np.shape(want) else "shape"})
+    return len(bad) > 0, {"n_problems": len(bad), "problems": bad[:4], "sequence": [list(r) if r else None for r in seq]}
+
+
+def sec_model_history(rec, patches=None):
+    """two alignment models with different (symbolic) tilt ranges, then one without a wedge, asked for their mask one after the other in the same process
+    (same box, same orientation): each answer is the mask of the model's own tilt model - no state may leak from one model object to the next"""
+    L = load.load(MODS + ["acryo._rotation", "acryo.alignment._base"], overrides={"Rotation": rotation.SymRotation}, patches=patches, keep_cache=True)
+    Lf = _load(patches)
+    B, T = L["acryo.alignment._base"], L["acryo.tilt.core"]
+    API = L["acryo.backend._api"]
+    xp = stubs.make_backend(API, API.np, None)
+    rec.encodes("acryo/alignment/_base.py:TomographyInput._get_missing_wedge_mask (per-model state)", "acryo/alignment/_base.py:TomographyInput.__init__ (tilt dispatch)")
+    rec.assume("functools.lru_cache is the real one; the template/rotation machinery of the model constructor is skipped; masks of a freshly loaded copy of the tilt modules are the reference")
+    B.RotationImplemented.__init__ = lambda self, *a, **k: None
+    shape = (2, 3, 4)
+
+    class TI(B.TomographyInput):
+        _optimize = _score = None
+        input_shape = property(lambda self: shape)
+
+    t0, h0 = make_tilt("tmin")
+    t1, h1 = make_tilt("tmax")
+    u0, g0 = make_tilt("umin")
+    u1, g1 = make_tilt("umax")
+    hyps = h0 + h1 + g0 + g1 + ordered(t0, t1) + ordered(u0, u1) + [t0.deg.e < t1.deg.e, u0.deg.e < u1.deg.e]
+    q = list(rotation.R30[9])
+    import warnings
+
+    def run():
+        rot = rotation.SymRotation(q)
+        with warnings.catch_warnings():
+            warnings.simplefilter("ignore")
+            mA = TI(None, tilt=T.single_axis((t0, t1), "y"))
+            mB = TI(None, tilt=T.single_axis((u0, u1), "y"))
+            mN = TI(None, tilt=None)
+        got = [m._get_missing_wedge_mask(q, xp) for m in (mA, mB, mN, mB, mA)]
+        Tf = Lf["acryo.tilt.core"]
+        want = [Tf.single_axis(r, "y").create_mask(rot, shape) for r in ((t0, t1), (u0, u1))]
+        return got, want
+
+    tag = "model-history[A>B>none>B>A]"
+    for pi, p in enumerate(explore(run, assumptions=hyps, max_paths=20)):
+        if not p.ok:
+            ok, det = replay_model_history({})
+            rec.fact(f"{tag}/path{pi}/runs", False, key="C08/model-history/raises", detail={"exc": repr(p.exc)[:300], **det}, reproduced=ok)
+            continue
+        got, want = p.result
+        h = hyps + [p.condition()]
+        for k, (g, wi) in enumerate(zip(got, (0, 1, None, 1, 0))):
+            if wi is None:
+                okn = all((not isinstance(v, (Sym, SymBool))) and v == 1 for v in np.asarray(_obj(to_symarray(g)) if np.ndim(g) else np.array([g], dtype=object)).reshape(-1))
+                rec.fact(f"{tag}/path{pi}/call{k}: a model without a tilt model has no wedge", bool(okn), key="C08/model-history/mask-of-another-model", detail={"got": repr(g)[:80]}, reproduced=True if okn else replay_model_history({})[0])
+                continue
+            g_, w_ = _obj(to_symarray(g)), _obj(want[wi])
+            if g_.shape != w_.shape:
+                rec.fact(f"{tag}/path{pi}/call{k}/shape", False, key="C08/model-history/mask-of-another-model", detail={"got": list(g_.shape)}, reproduced=replay_model_history({})[0])
+                continue
+            goal = z3.And(*[zb(g_[idx]) == zb(w_[idx]) for idx in np.ndindex(shape)])
+            rec.query(f"{tag}/path{pi}/call{k}=mask-of-the-model's-own-tilt-range", h, goal, key="C08/model-history/mask-of-another-model", replay=replay_model_history, twin=False, nonlinear=True)
+
+
 def sec_dispatch(rec, patches=None):
     """tilt=(a,b), tilt=single_axis((a,b)), tilt_range=(a,b) select the same model; tilt=None selects no wedge"""
     L = load.load(MODS + ["acryo._rotation", "acryo.alignment._base"], overrides={"Rotation": rotation.SymRotation}, patches=patches)
@@ -430,7 +516,7 @@ def _shapes(tier):
 
 
 def sections(tier):
-    S = [("union-iterable", "checks.c08", "sec_union_iterable", {}), ("combine", "checks.c08", "sec_combine", {}), ("dispatch", "checks.c08", "sec_dispatch", {}), ("cache-history", "checks.c08", "sec_history", {})]
+    S = [("union-iterable", "checks.c08", "sec_union_iterable", {}), ("combine", "checks.c08", "sec_combine", {}), ("dispatch", "checks.c08", "sec_dispatch", {}), ("cache-history", "checks.c08", "sec_history", {}), ("model-history", "checks.c08", "sec_model_history", {})]
     shapes = _shapes(tier)
     quats = rotation.R6 if quick(tier) else rotation.R30
     for si, shp in enumerate(shapes):
@@ -450,6 +536,9 @@ _U = "acryo._utils"
 _MW = "acryo.backend._missing_wedge"
 _q = rotation.R30
 MUTANTS = [
+    ("model-history:wedge-memoised-per-class-without-the-tilt-model (seeded change C07_11)", "checks.c08", "sec_model_history", {},
+     {"acryo.alignment._base": [("        mask = self._tilt_model.create_mask(\n            Rotation.from_quat(quat),\n            self.input_shape,  # type: ignore\n        )\n        return backend.asarray(mask)",
+                                 "        key = (np.asarray(quat, dtype=np.float64).tobytes(), self.input_shape)\n        cache = TomographyInput.__dict__.get('_wc')\n        if cache is None:\n            cache = {}\n            TomographyInput._wc = cache\n        if key not in cache:\n            cache[key] = backend.asarray(self._tilt_model.create_mask(Rotation.from_quat(quat), self.input_shape))\n        return cache[key]")]}),
     ("grid:revert-odd-size-fix", "checks.c08", "sec_mask", {"shapes": [(3, 3, 3)], "quats": [_q[9]], "axis": "y", "entry": "model"},
      {_TU: [("        ind -= s // 2\n    return np.fft.ifftshift(", "        ind -= math.ceil(s / 2)\n    return np.fft.fftshift(")]}),
     ("grid:floor-div-only", "checks.c08", "sec_mask", {"shapes": [(3, 2, 5)], "quats": [_q[0]], "axis": "y", "entry": "utils"}, {_U: [("    return np.fft.ifftshift(np.stack(list(inds), axis=-1), axes=(0, 1, 2))", "    return np.fft.fftshift(np.stack(list(inds), axis=-1), axes=(0, 1, 2))")]}),
@@ -483,7 +572,7 @@ def run(tier, procs=None, only=None):
 
 
 # every real-library oracle of this property (each returns (reproduced, detail)); used to confirm structural facts that carry no replay of their own
-ALL_REPLAYS = [lambda c: replay_mask((3, 4, 5), [0.5, 0.5, 0.5, 0.5], 'y')(c), lambda c: replay_mask((4, 4, 4), [0, 0, 0, 1], 'x')(c), replay_union_iterable, replay_history]
+ALL_REPLAYS = [lambda c: replay_mask((3, 4, 5), [0.5, 0.5, 0.5, 0.5], 'y')(c), lambda c: replay_mask((4, 4, 4), [0, 0, 0, 1], 'x')(c), replay_union_iterable, replay_history, replay_model_history]
 
 
 def replay(data):
